@@ -83,3 +83,13 @@ fn ieee_cmp_flip() {
     let b: f64 = kani::any();
     assert!((a.partial_cmp(&b) == Some(core::cmp::Ordering::Less)) == (b.partial_cmp(&a) == Some(core::cmp::Ordering::Greater)));
 }
+
+// F6 (unit setsketcher): for 0 <= n <= 2^53 the conversion to f64 is exact and floor gives n back
+#[kani::proof]
+fn ieee_f6_floor_of_int() {
+    let n: u64 = kani::any();
+    kani::assume(n <= (1u64 << 53));
+    let x = n as f64;
+    assert!(x.floor() as i64 == n as i64);
+    if n == 0 { assert!(x == 0.0); }
+}
